@@ -15,7 +15,7 @@ res = {}
 # ---- 1a mutants
 try:
     tmpj = tempfile.mktemp(suffix='.json')
-    subprocess.run([sys.executable, os.path.join(V, 'tools', 'mutants.py'), '-p', prop, '-j', '8', '--json', tmpj], env=ENV, capture_output=True, text=True, timeout=1500)
+    subprocess.run([sys.executable, os.path.join(V, 'tools', 'mutants.py'), '-p', prop, '-j', '12', '--json', tmpj], env=ENV, capture_output=True, text=True, timeout=1500)
     ms = json.load(open(tmpj)); os.remove(tmpj)
     res['mutants'] = {'total': len(ms), 'detected': sum(1 for m in ms if m[2] in ('detected', 'silent-ok')),
                       'missed': [m[0] for m in ms if m[2] == 'MISSED'], 'false_alarms': [m[0] for m in ms if m[2] == 'FALSE-ALARM'],
@@ -24,24 +24,30 @@ try:
 except Exception as e:
     res['mutants'] = {'error': str(e)}
 # ---- 1b seeds
-seeds = []
-for meta in sorted(glob.glob(os.path.join(V, 'seeded', '*', 'meta.json'))):
+NW = max(4, min(12, (os.cpu_count() or 8) - 2))
+def one_seed(meta):
     m = json.load(open(meta))
     if m.get('breaks_property') != prop:
-        continue
+        return None
     d = tempfile.mkdtemp(prefix='vseed-')
     try:
         w = os.path.join(d, 'w')
         shutil.copytree(REPO, w, ignore=shutil.ignore_patterns('.git'))
         p = subprocess.run(['patch', '-p1', '-s', '-i', os.path.join(os.path.dirname(meta), 'patch.diff')], cwd=w, capture_output=True, text=True)
         if p.returncode != 0:
-            seeds.append({'id': m['id'], 'status': 'patch does not apply to the current tree'}); continue
+            return {'id': m['id'], 'status': 'patch does not apply to the current tree'}
         v = subprocess.run([os.path.join(V, 'bin', 'vcheck'), '-repo', w, '-verif', os.path.join(d, 'o'), '-known', os.path.join(V, 'known_findings.json'), '-p', prop],
                            env=ENV, capture_output=True, text=True)
         rules = sorted(set(l.split()[1] for l in v.stdout.splitlines() if l.strip().startswith('[')))
-        seeds.append({'id': m['id'], 'status': {0: 'MISSED', 1: 'detected', 2: 'no verdict'}.get(v.returncode, 'rc%d' % v.returncode), 'rules': rules})
+        return {'id': m['id'], 'status': {0: 'MISSED', 1: 'detected', 2: 'no verdict'}.get(v.returncode, 'rc%d' % v.returncode), 'rules': rules}
     finally:
         shutil.rmtree(d, ignore_errors=True)
+try:
+    import concurrent.futures as cf
+    with cf.ThreadPoolExecutor(max_workers=NW) as ex:
+        seeds = [r for r in ex.map(one_seed, sorted(glob.glob(os.path.join(V, 'seeded', '*', 'meta.json')))) if r]
+except Exception as e:
+    seeds = [{'error': str(e)}]
 res['seeds'] = seeds
 # ---- 1c behaviour-preserving refactorings: the property's rules must stay silent on each
 refs = []
@@ -64,7 +70,7 @@ def one_ref(rd):
         shutil.rmtree(d, ignore_errors=True)
 try:
     import concurrent.futures as cf
-    with cf.ThreadPoolExecutor(max_workers=6) as ex:
+    with cf.ThreadPoolExecutor(max_workers=NW) as ex:
         refs = list(ex.map(one_ref, sorted(glob.glob(os.path.join(V, 'refactors', '*')))))
 except Exception as e:
     refs = [{'error': str(e)}]
